@@ -678,6 +678,25 @@ func runC14(env *run.Env, c *c14Case) c14Result {
 						kind = "acl-unbound"
 					}
 					res.Clause = kind + ":" + stepKind(entry)
+					if stepKind(entry) == "delete-all-then-add" {
+						// Deleting everything first is the tool's way for
+						// ACLs without a common line; with a common line
+						// (a remark counts) it is another defect.
+						common := ""
+						for _, x := range orig.ACEs(ob[k]) {
+							for _, y := range tgt.ACEs(nb[k]) {
+								if x.Remark != "" && x.Remark == y.Remark || x.Remark == "" && y.Remark == "" && x.Norm(true) == y.Norm(true) {
+									common = "remark"
+									if x.Remark == "" {
+										common = "entry"
+									}
+								}
+							}
+						}
+						if common != "" {
+							res.Clause += ":although-" + common + "-in-common"
+						}
+					}
 					// ACL bound to several interfaces on the device only.
 					shared := 0
 					for _, n := range ob {
